@@ -613,6 +613,10 @@ func defaultValue(c *schema.Column) (string, error) {
 		case *schema.BoolType, *schema.DecimalType, *schema.IntegerType, *schema.FloatType:
 			return x.V, nil
 		default:
+			// Blob literals (e.g. x'0A') are kept as-is.
+			if isBlob(x.V) {
+				return x.V, nil
+			}
 			return sqlx.SingleQuote(x.V)
 		}
 	case *schema.RawExpr:
